@@ -112,7 +112,7 @@ func runRouterRT(t *testing.T, line string) string {
 	gap, _ := strconv.Atoi(head[4])
 	type busy struct {
 		at, wait, ctrl int
-		lost bool // a routing-lost indication (wait = count) instead of a busy one
+		lost           bool // a routing-lost indication (wait = count) instead of a busy one
 	}
 	var bs []busy
 	if len(parts) == 2 {
